@@ -1749,6 +1749,132 @@ fn run(v: &Value) -> Result<String, String> {
             rt.shutdown_background();
             out
         }
+        "offreader_cap_sweep" => {
+            // Bounded stand-in for C16 (schedule samples, not a proof): one WebSocket connection, cap in 1..=3 and
+            // unlimited; 4 x cap concurrent requests to a parking off-reader handler; every release order of the parked
+            // handlers (exhaustive for these caps); handlers that return, fail and panic; inline traffic and notifies
+            // interleaved with saturation. Checked: running handlers never exceed the cap; a request at the cap is
+            // refused at once with ResourceExhausted while the connection keeps answering inline requests; a notify at
+            // the cap runs no handler; every exit frees its slot; a panic is an InternalError for its own caller only.
+            use repe::{Router, WebSocketClient, WebSocketServer, RepeError, ErrorCode};
+            use serde_json::json;
+            use std::collections::HashMap;
+            use std::sync::{Arc, Condvar, Mutex};
+            use std::sync::atomic::{AtomicUsize, Ordering};
+            use std::time::Duration;
+            struct Gate { released: Mutex<HashMap<u64, bool>>, cv: Condvar }
+            let rt = tokio::runtime::Builder::new_multi_thread().worker_threads(4).max_blocking_threads(64).enable_all().build().unwrap();
+            let mut cases = 0usize;
+            // parked handler threads may outlive a failing scenario: the runtime is shut down in the background at the end
+            let outcome: Result<(), String> = (|| {
+            fn perms(n: usize) -> Vec<Vec<usize>> {
+                fn go(cur: &mut Vec<usize>, rest: &mut Vec<usize>, out: &mut Vec<Vec<usize>>) {
+                    if rest.is_empty() { out.push(cur.clone()); return; }
+                    for i in 0..rest.len() { let x = rest.remove(i); cur.push(x); go(cur, rest, out); cur.pop(); rest.insert(i, x); }
+                }
+                let mut out = Vec::new(); go(&mut Vec::new(), &mut (0..n).collect(), &mut out); out
+            }
+            for cap in [1usize, 2, 3] {
+                for order in perms(cap) {
+                    for shift in 0..3u64 {
+                        cases += 1;
+                        let running = Arc::new(AtomicUsize::new(0));
+                        let max_running = Arc::new(AtomicUsize::new(0));
+                        let invoked = Arc::new(AtomicUsize::new(0));
+                        let gate = Arc::new(Gate { released: Mutex::new(HashMap::new()), cv: Condvar::new() });
+                        let (r2, m2, i2, g2) = (running.clone(), max_running.clone(), invoked.clone(), gate.clone());
+                        let router = Router::new()
+                            .with_json_blocking("/hold", move |v| {
+                                let key = v["key"].as_u64().unwrap_or(0);
+                                let mode = v["mode"].as_u64().unwrap_or(0);
+                                i2.fetch_add(1, Ordering::SeqCst);
+                                let now = r2.fetch_add(1, Ordering::SeqCst) + 1;
+                                m2.fetch_max(now, Ordering::SeqCst);
+                                struct Dec(Arc<AtomicUsize>);
+                                impl Drop for Dec { fn drop(&mut self) { self.0.fetch_sub(1, Ordering::SeqCst); } }
+                                let _dec = Dec(r2.clone());
+                                {
+                                    let mut rel = g2.released.lock().unwrap();
+                                    while !rel.get(&key).copied().unwrap_or(false) { rel = g2.cv.wait(rel).unwrap(); }
+                                }
+                                match mode { 0 => Ok(json!({"key": key})), 1 => Err((ErrorCode::ApplicationErrorBase, format!("failed {key}"))), _ => panic!("handler {key} panics (scripted)") }
+                            })
+                            .with_json("/ping", |_| Ok(json!("pong")));
+                        let res: Result<(), String> = rt.block_on(async {
+                            let listener = tokio::net::TcpListener::bind(("127.0.0.1", 0)).await.map_err(|e| e.to_string())?;
+                            let addr = listener.local_addr().unwrap();
+                            let shared = WebSocketServer::new(router).with_offreader_limit(cap).into_shared();
+                            let server_task = tokio::spawn(async move {
+                                loop {
+                                    let Ok((stream, _)) = listener.accept().await else { break };
+                                    let shared = shared.clone();
+                                    tokio::spawn(async move { if let Ok(ws) = WebSocketServer::accept(stream, "/repe").await { let _ = shared.serve_connection(ws).await; } });
+                                }
+                            });
+                            let client = WebSocketClient::connect(&format!("ws://{addr}/repe")).await.map_err(|e| e.to_string())?;
+                            // fill the cap with parked handlers (modes rotate: return / fail / panic)
+                            let mut held = Vec::new();
+                            for k in 0..cap as u64 {
+                                let c = client.clone();
+                                let mode = (k + shift) % 3;
+                                held.push((k, mode, tokio::spawn(async move { c.call_json("/hold", &json!({"key": k, "mode": mode})).await })));
+                            }
+                            let t0 = std::time::Instant::now();
+                            while running.load(Ordering::SeqCst) < cap { if t0.elapsed() > Duration::from_secs(5) { return Err(format!("cap {cap}: only {} of {cap} handlers started", running.load(Ordering::SeqCst))); } tokio::time::sleep(Duration::from_millis(5)).await; }
+                            // 3 x cap more requests arrive at the cap: each refused at once, retryable, and the reader keeps working
+                            let before = invoked.load(Ordering::SeqCst);
+                            for extra in 0..(3 * cap) as u64 {
+                                match tokio::time::timeout(Duration::from_secs(3), client.call_json("/hold", &json!({"key": 100 + extra, "mode": 0}))).await {
+                                    Err(_) => return Err(format!("cap {cap}: a request arriving at the cap was neither refused nor answered within 3 s (the reader is blocked or the request was queued)")),
+                                    Ok(Err(RepeError::ServerError { code, .. })) if code == ErrorCode::ResourceExhausted => {}
+                                    Ok(other) => return Err(format!("cap {cap}: a request arriving at the cap was answered {other:?}; expected the retryable ResourceExhausted error")),
+                                }
+                                let pong = tokio::time::timeout(Duration::from_secs(3), client.call_json("/ping", &json!({}))).await.map_err(|_| format!("cap {cap}: inline /ping hung while the cap was saturated"))?.map_err(|e| format!("cap {cap}: inline /ping failed during saturation: {e}"))?;
+                                if pong != json!("pong") { return Err(format!("foreign answer to /ping: {pong}")); }
+                            }
+                            client.notify_json("/hold", &json!({"key": 999, "mode": 0})).await.map_err(|e| e.to_string())?;
+                            let _ = client.call_json("/ping", &json!({})).await;   // ordering barrier: the notify was read before this ping
+                            if invoked.load(Ordering::SeqCst) != before { return Err(format!("cap {cap}: {} handler invocation(s) happened for requests/notifies that arrived at the cap", invoked.load(Ordering::SeqCst) - before)); }
+                            // release the parked handlers in this order; each exit must free its slot
+                            let mut held: Vec<Option<(u64, u64, tokio::task::JoinHandle<Result<serde_json::Value, RepeError>>)>> = held.into_iter().map(Some).collect();
+                            for &idx in &order {
+                                let (k, mode, h) = held[idx].take().unwrap();
+                                { gate.released.lock().unwrap().insert(k, true); gate.cv.notify_all(); }
+                                let out = tokio::time::timeout(Duration::from_secs(5), h).await.map_err(|_| format!("cap {cap}: released handler {k} never answered"))?.map_err(|e| e.to_string())?;
+                                match (mode, &out) {
+                                    (0, Ok(v)) if v["key"] == json!(k) => {}
+                                    (1, Err(RepeError::ServerError { code, .. })) if *code == ErrorCode::ApplicationErrorBase => {}
+                                    (2, Err(RepeError::ServerError { code, .. })) if *code == ErrorCode::InternalError => {}
+                                    _ => return Err(format!("cap {cap}: handler {k} (mode {mode}: 0 returns, 1 fails, 2 panics) was answered {out:?}")),
+                                }
+                                // the freed slot admits a new request, which runs to completion
+                                let t1 = std::time::Instant::now();
+                                loop {
+                                    gate.released.lock().unwrap().insert(500 + k, true);
+                                    match tokio::time::timeout(Duration::from_secs(5), client.call_json("/hold", &json!({"key": 500 + k, "mode": 0}))).await {
+                                        Ok(Ok(v)) if v["key"] == json!(500 + k) => break,
+                                        Ok(Err(RepeError::ServerError { code, .. })) if code == ErrorCode::ResourceExhausted && t1.elapsed() < Duration::from_secs(2) => { tokio::time::sleep(Duration::from_millis(10)).await; }
+                                        other => return Err(format!("cap {cap}: after handler {k} (mode {mode}) exited its slot was not freed: a new request got {other:?}")),
+                                    }
+                                }
+                                let pong = client.call_json("/ping", &json!({})).await.map_err(|e| format!("cap {cap}: the connection died after handler {k} (mode {mode}) exited: {e}"))?;
+                                if pong != json!("pong") { return Err(format!("foreign answer to /ping: {pong}")); }
+                            }
+                            if max_running.load(Ordering::SeqCst) > cap { return Err(format!("cap {cap}: {} off-reader handlers ran at the same time", max_running.load(Ordering::SeqCst))); }
+                            drop(client);
+                            server_task.abort();
+                            Ok(())
+                        });
+                        res.map_err(|e| format!("release order {order:?}, mode shift {shift}: {e}"))?;
+                    }
+                }
+            }
+            Ok(())
+            })();
+            rt.shutdown_background();
+            outcome?;
+            Ok(format!("{cases} saturation scenarios held (caps 1..3, every release order, return/fail/panic mixes)"))
+        }
         other => panic!("unknown replay entry `{other}`"),
     }
 }
